@@ -15,6 +15,7 @@ mod crash;
 mod coresyms;
 mod deps;
 mod entry;
+mod fresh;
 mod purity;
 mod opt;
 mod passes;
@@ -49,6 +50,7 @@ fn main() {
         "scope-worker" => scope::worker(&rest),
         "conv" => conv::run(&rest),
         "entry" => entry::run(&rest),
+        "fresh" => fresh::run(&rest),
         "cldbmain" => entry::cldb_main(&rest),
         "purity" => purity::run(&rest),
         "text" => text::run(&rest),
